@@ -285,3 +285,15 @@ def resolve_local(fn_node, e, depth=3):
         if e.id in params or len(binds) != 1 or not isinstance(binds[0], _ast.Assign) or len(binds[0].targets) != 1 or not isinstance(binds[0].targets[0], _ast.Name): return e
         e = binds[0].value; depth -= 1
     return e
+
+
+def resolve_names(fn_node, e):
+    """copy of expression `e` in which every local that is bound exactly once (see resolve_local) is replaced by the expression it was given"""
+    import ast as _ast, copy as _copy
+    class R(_ast.NodeTransformer):
+        def visit_Name(self, node):
+            if isinstance(node.ctx, _ast.Load):
+                r = resolve_local(fn_node, node)
+                if r is not node: return _copy.deepcopy(r)
+            return node
+    return R().visit(_copy.deepcopy(e))
